@@ -23,14 +23,28 @@
     The kernel is the contract K1-K4 of DESIGN.md §5 as the simulated kernel implements it:
     submissions are consumed in order on [enter]; CLOSE executes at once; ASYNC_CANCEL removes
     its target from the in-flight table and posts the target's final completion (its own
-    completion is skipped on success, posted with ENOENT otherwise); REGISTER_SYNC_CANCEL posts a
-    final completion for everything in flight; a completion goes into the ring when there is room
-    and nothing waits on the overflow list, else onto that list; every [enter] moves entries from
-    the overflow list into free slots.
+    completion is skipped on success, posted with ENOENT / EALREADY otherwise);
+    REGISTER_SYNC_CANCEL(ANY|ALL) does the same for everything in flight that can be cancelled; a
+    completion goes into the ring when there is room and nothing waits on the overflow list, else
+    onto that list; every [enter] moves entries from the overflow list into free slots.
 
-    One model step = dropping one object, or the kernel finishing one in-flight request. Each
-    step returns the log of what it did, including every access to a mapping ([LUse]).
-    Executable definitions only. *)
+    Two sorts of request are not finished by a cancellation (K2, K4):
+      - a request the kernel cannot cancel ([d_surv]: e.g. I/O that is already executing). An
+        ASYNC_CANCEL naming it answers EALREADY; REGISTER_SYNC_CANCEL leaves it in flight and fails
+        with ETIME for the call as a whole, which [Completions::drop] logs and ignores. Such a
+        request is still in flight after the [Ring] was dropped; its completion arrives later or
+        never, and nobody processes it.
+      - a two-step request ([d_two]: a zero-copy send, IORING_OP_SEND_ZC / SENDMSG_ZC) posts its
+        result with IORING_CQE_F_MORE ([CMore]) and, once the network stack has let go of the
+        buffer, a notification without it ([COp], the final completion). Before the result is
+        posted ([k_first]) a cancellation makes it post both at once (ECANCELED with F_MORE, then
+        the notification); once only the notification is outstanding nothing can hurry it.
+
+    One model step = dropping one object, or the kernel taking the next step of one in-flight
+    request ([KComplete]: the result of a two-step request whose result is due, else the final
+    completion). Each step returns the log of what it did, including every access to a mapping
+    ([LUse]), every use of an operation state by the completion handler ([LProcess]) and every
+    release. Executable definitions only. *)
 From A10 Require Import Base.Word Base.Run.
 Local Open Scope nat_scope.
 
@@ -50,18 +64,24 @@ Record pool := {
 }.
 
 Inductive sqe := SClose (h : nat) | SOp (o : nat) | SCancel (o : nat).
-Inductive cqe := COp (o : nat) (* final completion of operation o *) | CBook (* user_data 0-3 *).
+Inductive cqe :=
+  | COp (o : nat)     (* final completion of operation o (no IORING_CQE_F_MORE) *)
+  | CMore (o : nat)   (* result of the two-step operation o, IORING_CQE_F_MORE set: the notification follows *)
+  | CBook.            (* user_data 0-3 *)
 
 Record kern := {
   k_sqq : list sqe;        (* published, not consumed *)
   k_inflight : list nat;   (* consumed, no final completion yet *)
+  k_first : list nat;      (* two-step requests in flight whose result (F_MORE) has not been posted *)
   k_cq : list cqe;         (* in the completion ring, not processed *)
   k_ovf : list cqe         (* overflow list *)
 }.
 
 Record dims := {
   d_sqn : nat; d_cqn : nat;                       (* entries *)
-  d_len_sq : N; d_len_sqes : N; d_len_cq : N      (* lengths of the three mappings as mapped *)
+  d_len_sq : N; d_len_sqes : N; d_len_cq : N;     (* lengths of the three mappings as mapped *)
+  d_two : list nat;                               (* operations that complete in two steps (zero-copy sends) *)
+  d_surv : list nat                               (* operations the kernel does not cancel *)
 }.
 
 Record state := {
@@ -128,6 +148,7 @@ Inductive lev :=
   | LCloseRing                          (* [rfd: OwnedFd] dropped *)
   | LSysClose (h : nat)                 (* close(2): the fallback of [AsyncFd::drop] *)
   | LUsePool (p : nat)                  (* [ReadBuf::release] writes the pool's ring and buffer *)
+  | LProcess (o : nat) (final : bool)   (* [Completion::process] locks the state of operation o and updates it *)
   | LFree (a : allocation).
 
 Definition len_of (d : dims) (m : mapping) : N :=
@@ -147,7 +168,7 @@ Definition dec_shared (s : state) : state * list lev :=
 Definition sq_add (s : state) (q : sqe) : state * bool * list lev :=
   let k := s_k s in
   if length (k_sqq k) <? d_sqn (s_d s)
-  then (set_k s {| k_sqq := k_sqq k ++ [q]; k_inflight := k_inflight k; k_cq := k_cq k; k_ovf := k_ovf k |},
+  then (set_k s {| k_sqq := k_sqq k ++ [q]; k_inflight := k_inflight k; k_first := k_first k; k_cq := k_cq k; k_ovf := k_ovf k |},
         true, [LUse MSq; LUse MSqes; LUse MSq])
   else (s, false, [LUse MSq]).
 
@@ -217,14 +238,14 @@ Definition drop_buf (s : state) (b : nat) : state * list lev :=
 Definition post (cqn : nat) (k : kern) (c : cqe) : kern :=
   match k_ovf k with
   | [] => if length (k_cq k) <? cqn
-          then {| k_sqq := k_sqq k; k_inflight := k_inflight k; k_cq := k_cq k ++ [c]; k_ovf := [] |}
-          else {| k_sqq := k_sqq k; k_inflight := k_inflight k; k_cq := k_cq k; k_ovf := [c] |}
-  | _ => {| k_sqq := k_sqq k; k_inflight := k_inflight k; k_cq := k_cq k; k_ovf := k_ovf k ++ [c] |}
+          then {| k_sqq := k_sqq k; k_inflight := k_inflight k; k_first := k_first k; k_cq := k_cq k ++ [c]; k_ovf := [] |}
+          else {| k_sqq := k_sqq k; k_inflight := k_inflight k; k_first := k_first k; k_cq := k_cq k; k_ovf := [c] |}
+  | _ => {| k_sqq := k_sqq k; k_inflight := k_inflight k; k_first := k_first k; k_cq := k_cq k; k_ovf := k_ovf k ++ [c] |}
   end.
 
 Definition flush_overflow (cqn : nat) (k : kern) : kern :=
   let room := cqn - length (k_cq k) in
-  {| k_sqq := k_sqq k; k_inflight := k_inflight k;
+  {| k_sqq := k_sqq k; k_inflight := k_inflight k; k_first := k_first k;
      k_cq := k_cq k ++ firstn room (k_ovf k); k_ovf := skipn room (k_ovf k) |}.
 
 Fixpoint remove_nat (x : nat) (l : list nat) : list nat :=
@@ -236,47 +257,79 @@ Fixpoint remove_nat (x : nat) (l : list nat) : list nat :=
 Fixpoint mem_nat (x : nat) (l : list nat) : bool :=
   match l with [] => false | y :: r => (y =? x) || mem_nat x r end.
 
+(** Can a cancellation finish request [o] now? It is in flight, the kernel is able to cancel it,
+    and it is not a two-step request that only waits for its notification. *)
+Definition cancelable (d : dims) (k : kern) (o : nat) : bool :=
+  mem_nat o (k_inflight k) && negb (mem_nat o (d_surv d)) &&
+  (negb (mem_nat o (d_two d)) || mem_nat o (k_first k)).
+
+(** Cancelling request [o]: its final completion is posted; a two-step request whose result is
+    due posts that first (ECANCELED, F_MORE). *)
+Definition cancel_req (d : dims) (k : kern) (o : nat) : kern :=
+  let k0 := {| k_sqq := k_sqq k; k_inflight := remove_nat o (k_inflight k); k_first := remove_nat o (k_first k);
+               k_cq := k_cq k; k_ovf := k_ovf k |} in
+  if mem_nat o (k_first k)
+  then post (d_cqn d) (post (d_cqn d) k0 (CMore o)) (COp o)
+  else post (d_cqn d) k0 (COp o).
+
 (** The kernel executes one consumed submission. *)
-Definition execute (cqn : nat) (k : kern) (q : sqe) : kern :=
+Definition execute (d : dims) (k : kern) (q : sqe) : kern :=
   match q with
   | SClose _ => k
-  | SOp o => {| k_sqq := k_sqq k; k_inflight := k_inflight k ++ [o]; k_cq := k_cq k; k_ovf := k_ovf k |}
+  | SOp o => {| k_sqq := k_sqq k; k_inflight := k_inflight k ++ [o];
+                k_first := if mem_nat o (d_two d) then k_first k ++ [o] else k_first k;
+                k_cq := k_cq k; k_ovf := k_ovf k |}
   | SCancel o =>
-      if mem_nat o (k_inflight k)
-      then post cqn {| k_sqq := k_sqq k; k_inflight := remove_nat o (k_inflight k); k_cq := k_cq k; k_ovf := k_ovf k |} (COp o)
-      else post cqn k CBook
+      if cancelable d k o
+      then cancel_req d k o
+      else post (d_cqn d) k CBook
   end.
 
 (** [enter] submitting everything that is queued. *)
-Definition consume_all (cqn : nat) (k : kern) : kern :=
-  fold_left (execute cqn)
+Definition consume_all (d : dims) (k : kern) : kern :=
+  fold_left (execute d)
             (k_sqq k)
-            {| k_sqq := []; k_inflight := k_inflight k; k_cq := k_cq k; k_ovf := k_ovf k |}.
+            {| k_sqq := []; k_inflight := k_inflight k; k_first := k_first k; k_cq := k_cq k; k_ovf := k_ovf k |}.
 
-(** REGISTER_SYNC_CANCEL(ANY|ALL). *)
-Definition sync_cancel (cqn : nat) (k : kern) : kern :=
-  fold_left (fun k o => post cqn k (COp o))
-            (k_inflight k)
-            {| k_sqq := k_sqq k; k_inflight := []; k_cq := k_cq k; k_ovf := k_ovf k |}.
+(** REGISTER_SYNC_CANCEL(ANY|ALL): every request in flight that can be cancelled, in order. What
+    cannot be cancelled stays in flight (the call then fails with ETIME after its timeout; the
+    caller, [Completions::drop], logs that and goes on). *)
+Definition sync_cancel (d : dims) (k : kern) : kern :=
+  fold_left (fun k o => if cancelable d k o then cancel_req d k o else k) (k_inflight k) k.
 
-(** The kernel finishes in-flight request [o] on its own. *)
+(** The kernel takes the next step of in-flight request [o] on its own: the result of a two-step
+    request whose result is due (F_MORE: the request stays in flight), else the final completion.
+    This can happen at any time, also after the [Ring] is gone (the completion is then posted
+    where nobody looks any more). *)
 Definition kcomplete (s : state) (o : nat) : state * list lev :=
   let k := s_k s in
   if mem_nat o (k_inflight k)
-  then (set_k s (post (d_cqn (s_d s))
-                      {| k_sqq := k_sqq k; k_inflight := remove_nat o (k_inflight k); k_cq := k_cq k; k_ovf := k_ovf k |}
-                      (COp o)), [])
+  then if mem_nat o (k_first k)
+       then (set_k s (post (d_cqn (s_d s))
+                           {| k_sqq := k_sqq k; k_inflight := k_inflight k; k_first := remove_nat o (k_first k);
+                              k_cq := k_cq k; k_ovf := k_ovf k |}
+                           (CMore o)), [])
+       else (set_k s (post (d_cqn (s_d s))
+                           {| k_sqq := k_sqq k; k_inflight := remove_nat o (k_inflight k); k_first := k_first k;
+                              k_cq := k_cq k; k_ovf := k_ovf k |}
+                           (COp o)), [])
   else (s, []).
 
-(** * Completion dispatch ([Completion::process] + [Shared::update]) for a final completion *)
+(** * Completion dispatch ([Completion::process] + [Shared::update])
+    The handler locks the state the completion's user_data points to ([LProcess]). A completion
+    with IORING_CQE_F_MORE leaves a single-shot operation as it is ([Running]: the result is
+    stored, nobody is woken; [Dropped]: "more completions are coming, so we can't deallocate yet");
+    the final one makes a running operation [Done] and releases the state of a dropped one. *)
 Definition process_one (ops : list op) (c : cqe) : list op * list lev :=
   match c with
   | CBook => (ops, [])
+  | CMore o => (ops, [LProcess o false])
   | COp o =>
       match o_st (nth o ops dead_op) with
-      | Running => (upd o (fun x => {| o_on := o_on x; o_fut := o_fut x; o_st := Done; o_box := o_box x |}) ops, [])
+      | Running => (upd o (fun x => {| o_on := o_on x; o_fut := o_fut x; o_st := Done; o_box := o_box x |}) ops,
+                    [LProcess o true])
       | Dropped => (upd o (fun x => {| o_on := o_on x; o_fut := o_fut x; o_st := o_st x; o_box := false |}) ops,
-                    [LFree (ABox o)])
+                    [LProcess o true; LFree (ABox o)])
       | _ => (ops, [])   (* Done: a second final completion; NotStarted/Complete: unreachable!() — excluded by the invariant *)
       end
   end.
@@ -294,7 +347,7 @@ Fixpoint process_all (ops : list op) (cs : list cqe) : list op * list lev :=
 Definition poll_fetch (s : state) : kern * list lev :=
   let d := s_d s in
   match k_cq (s_k s) with
-  | [] => (flush_overflow (d_cqn d) (consume_all (d_cqn d) (s_k s)),
+  | [] => (flush_overflow (d_cqn d) (consume_all d (s_k s)),
            [LUse MCq; LUse MSq; LEnter (length (k_sqq (s_k s))) true] ++ map LConsumed (k_sqq (s_k s)) ++ [LUse MCq])
   | _ => (s_k s, [LUse MCq])
   end.
@@ -302,14 +355,14 @@ Definition poll_fetch (s : state) : kern * list lev :=
 Definition cq_poll (s : state) : state * list lev :=
   let '(k1, l1) := poll_fetch s in
   let '(ops1, l2) := process_all (s_ops s) (k_cq k1) in
-  (set_ops (set_k s {| k_sqq := k_sqq k1; k_inflight := k_inflight k1; k_cq := []; k_ovf := k_ovf k1 |}) ops1,
+  (set_ops (set_k s {| k_sqq := k_sqq k1; k_inflight := k_inflight k1; k_first := k_first k1; k_cq := []; k_ovf := k_ovf k1 |}) ops1,
    l1 ++ l2 ++ [LUse MCq]).
 
 (** [Shared::enter]: the number of unsubmitted entries is read from the submission ring, all of
     them are submitted; every [enter] also flushes the overflow list. *)
 Definition enter_all (s : state) (getevents : bool) : state * list lev :=
   let d := s_d s in
-  (set_k s (flush_overflow (d_cqn d) (consume_all (d_cqn d) (s_k s))),
+  (set_k s (flush_overflow (d_cqn d) (consume_all d (s_k s))),
    [LUse MSq; LEnter (length (k_sqq (s_k s))) getevents] ++ map LConsumed (k_sqq (s_k s))).
 
 (** * [Drop for Ring]
@@ -319,7 +372,7 @@ Definition drop_ring (s : state) : state * list lev :=
   if s_ring s
   then
     let '(s1, l1) := enter_all s false in
-    let s2 := set_k s1 (sync_cancel (d_cqn (s_d s1)) (s_k s1)) in
+    let s2 := set_k s1 (sync_cancel (s_d s1) (s_k s1)) in
     let '(s3, l3) := enter_all s2 true in
     let '(s4, l4) := cq_poll s3 in
     let '(s5, l5) := dec_shared (set_ring s4 false) in
@@ -346,7 +399,7 @@ Definition drop_ring_fixed (s : state) : state * list lev :=
   if s_ring s
   then
     let '(s1, l1) := enter_all s false in
-    let s2 := set_k s1 (sync_cancel (d_cqn (s_d s1)) (s_k s1)) in
+    let s2 := set_k s1 (sync_cancel (s_d s1) (s_k s1)) in
     let '(s4, l4) := drain_fixed (S (length (k_cq (s_k s2)) + length (k_ovf (s_k s2)))) s2 in
     let '(s5, l5) := dec_shared (set_ring s4 false) in
     (s5, l1 ++ [LRegister RSyncCancel] ++ l4 ++ [LMunmap MCq (d_len_cq (s_d s))] ++ l5)
@@ -370,6 +423,83 @@ Definition step_with (dr : state -> state * list lev) (s : state) (e : event) : 
 Definition step : state -> event -> state * list lev := step_with drop_ring.
 Definition step_fixed : state -> event -> state * list lev := step_with drop_ring_fixed.
 
+(** * Two seeded regressions, kept for the refutation lemmas (not the code as it is)
+    Seeded change C12-c: in [Shared::update]'s [Dropped] branch only multishot operations are taken
+    to post more than one completion: the state of an abandoned two-step operation is released on
+    its result completion (F_MORE set) — while the request is in flight and the notification is
+    still to be processed. *)
+Definition process_one_c12c (ops : list op) (c : cqe) : list op * list lev :=
+  match c with
+  | CMore o =>
+      match o_st (nth o ops dead_op) with
+      | Dropped => (upd o (fun x => {| o_on := o_on x; o_fut := o_fut x; o_st := o_st x; o_box := false |}) ops,
+                    [LProcess o false; LFree (ABox o)])
+      | _ => (ops, [LProcess o false])
+      end
+  | _ => process_one ops c
+  end.
+
+(** The drop of the [Ring] over an arbitrary completion handler [po] ([drop_ring_fixed] is the
+    instance [po := process_one], see [drop_ring_w_process_one] in the proofs). *)
+Fixpoint process_all_w (po : list op -> cqe -> list op * list lev) (ops : list op) (cs : list cqe) : list op * list lev :=
+  match cs with
+  | [] => (ops, [])
+  | c :: r => let '(ops1, l1) := po ops c in
+              let '(ops2, l2) := process_all_w po ops1 r in
+              (ops2, l1 ++ l2)
+  end.
+
+Definition cq_poll_w (po : list op -> cqe -> list op * list lev) (s : state) : state * list lev :=
+  let '(k1, l1) := poll_fetch s in
+  let '(ops1, l2) := process_all_w po (s_ops s) (k_cq k1) in
+  (set_ops (set_k s {| k_sqq := k_sqq k1; k_inflight := k_inflight k1; k_first := k_first k1; k_cq := []; k_ovf := k_ovf k1 |}) ops1,
+   l1 ++ l2 ++ [LUse MCq]).
+
+Fixpoint drain_w (po : list op -> cqe -> list op * list lev) (fuel : nat) (s : state) : state * list lev :=
+  match fuel with
+  | 0 => (s, [])
+  | S f =>
+      let '(s1, l1) := enter_all s true in
+      let pending := match k_cq (fst (poll_fetch s1)) with [] => false | _ => true end in
+      let '(s2, l2) := cq_poll_w po s1 in
+      if pending
+      then let '(s3, l3) := drain_w po f s2 in (s3, l1 ++ [LUse MCq] ++ l2 ++ [LUse MCq] ++ l3)
+      else (s2, l1 ++ [LUse MCq] ++ l2 ++ [LUse MCq])
+  end.
+
+Definition drop_ring_w (po : list op -> cqe -> list op * list lev) (s : state) : state * list lev :=
+  if s_ring s
+  then
+    let '(s1, l1) := enter_all s false in
+    let s2 := set_k s1 (sync_cancel (s_d s1) (s_k s1)) in
+    let '(s4, l4) := drain_w po (S (length (k_cq (s_k s2)) + length (k_ovf (s_k s2)))) s2 in
+    let '(s5, l5) := dec_shared (set_ring s4 false) in
+    (s5, l1 ++ [LRegister RSyncCancel] ++ l4 ++ [LMunmap MCq (d_len_cq (s_d s))] ++ l5)
+  else (s, []).
+
+Definition step_c12c : state -> event -> state * list lev := step_with (drop_ring_w process_one_c12c).
+
+(** Seeded change C01-f: a [closed] flag is set at the end of [Completions::drop]; from then on
+    [State::drop] releases the state of a running operation at once instead of marking it
+    [Dropped] — while its request may still be in flight (it survived the cancellation, or only
+    its notification is outstanding). The flag is set exactly when the [Ring] is gone. *)
+Definition drop_op_c01f (s : state) (o : nat) : state * list lev :=
+  let x := get_op s o in
+  if o_fut x && negb (s_ring s) && match o_st x with Running => true | _ => false end
+  then
+    let s1 := set_ops s (upd o (fun x => {| o_on := o_on x; o_fut := false; o_st := o_st x; o_box := false |}) (s_ops s)) in
+    match o_on x with
+    | Some _ => (s1, [LFree (ABox o)])
+    | None => let '(s2, l2) := dec_shared s1 in (s2, [LFree (ABox o)] ++ l2)
+    end
+  else drop_op s o.
+
+Definition step_c01f (s : state) (e : event) : state * list lev :=
+  match e with
+  | Drop (OOp o) => drop_op_c01f s o
+  | _ => step_fixed s e
+  end.
+
 (** * Populations *)
 (** State an operation is in when the teardown starts (abandoned and completed-but-unpolled
     operations arise from [Drop (OOp _)] / [KComplete _] events that precede [Drop ORing]). *)
@@ -378,7 +508,11 @@ Inductive ist :=
   | IQueued         (* polled once: submission queued, not consumed *)
   | IInflight       (* consumed by the kernel *)
   | IDone           (* final completion processed by [Ring::poll], result not taken *)
-  | IFinished.      (* result taken ([Complete]) *)
+  | IFinished       (* result taken ([Complete]) *)
+  (* two-step operations only: *)
+  | IMid            (* in flight, result (F_MORE) posted and processed by [Ring::poll]; the notification is outstanding *)
+  | IAbMid          (* as [IMid], and the future was dropped before the result was processed: abandoned, state not released *)
+  | IAbDone.        (* abandoned; both completions processed by [Ring::poll]: the state was released on the second *)
 
 Record population := {
   pp_d : dims;
@@ -390,7 +524,12 @@ Record population := {
 }.
 
 Definition st_of (i : ist) : ost :=
-  match i with INotStarted => NotStarted | IQueued | IInflight => Running | IDone => Done | IFinished => Complete end.
+  match i with
+  | INotStarted => NotStarted | IQueued | IInflight | IMid => Running | IDone => Done | IFinished => Complete
+  | IAbMid | IAbDone => Dropped
+  end.
+Definition fut_of (i : ist) : bool := match i with IAbMid | IAbDone => false | _ => true end.
+Definition box_of (i : ist) : bool := match i with IAbDone => false | _ => true end.
 
 Fixpoint indices_where {A : Type} (f : A -> bool) (l : list A) (i : nat) : list nat :=
   match l with
@@ -399,8 +538,9 @@ Fixpoint indices_where {A : Type} (f : A -> bool) (l : list A) (i : nat) : list 
   end.
 
 Definition is_queued (x : option nat * ist) : bool := match snd x with IQueued => true | _ => false end.
-Definition is_inflight (x : option nat * ist) : bool := match snd x with IInflight => true | _ => false end.
-Definition owns_sq (x : option nat * ist) : bool := match fst x with None => true | Some _ => false end.
+Definition is_inflight (x : option nat * ist) : bool := match snd x with IInflight | IMid | IAbMid => true | _ => false end.
+Definition is_first (x : option nat * ist) : bool := match snd x with IInflight => true | _ => false end.
+Definition owns_sq (x : option nat * ist) : bool := match fst x with None => fut_of (snd x) | Some _ => false end.
 
 Definition count_nat (x : nat) (l : list nat) : nat := length (filter (Nat.eqb x) l).
 
@@ -410,21 +550,27 @@ Definition init (pp : population) : state :=
      s_rc := 1 + pp_clones pp + pp_fds pp + length (filter owns_sq (pp_ops pp)) + pp_pools pp;
      s_clones := repeat true (pp_clones pp);
      s_fds := repeat true (pp_fds pp);
-     s_ops := map (fun x => {| o_on := fst x; o_fut := true; o_st := st_of (snd x); o_box := true |}) (pp_ops pp);
+     s_ops := map (fun x => {| o_on := fst x; o_fut := fut_of (snd x); o_st := st_of (snd x); o_box := box_of (snd x) |}) (pp_ops pp);
      s_pools := map (fun p => {| p_rc := 1 + count_nat p (pp_bufs pp); p_handle := true |}) (seq 0 (pp_pools pp));
      s_bufs := map (fun p => (p, true)) (pp_bufs pp);
      s_k := {| k_sqq := map SOp (indices_where is_queued (pp_ops pp) 0);
                k_inflight := indices_where is_inflight (pp_ops pp) 0;
+               k_first := filter (fun o => mem_nat o (d_two (pp_d pp))) (indices_where is_first (pp_ops pp) 0);
                k_cq := []; k_ovf := [] |} |}.
 
 (** * Resource replay (the style of Model/Build.v)
-    A monitor that knows nothing about reference counts: what is mapped, whether the ring
-    descriptor is open, which pools are registered, which allocations are live, which [AsyncFd]
-    descriptors are open. Replaying a log fails ([None]) on: an access to or a second munmap of an
-    unmapped region, a munmap with a length other than the mapping's, a system call on the closed
-    ring descriptor, closing it twice or while something is still mapped, freeing an allocation
-    that is not live, a pool's memory freed while it is registered or used after it was freed,
-    unregistering twice, closing a descriptor twice. *)
+    A monitor that knows nothing about reference counts or operation statuses: what is mapped,
+    whether the ring descriptor is open, which pools are registered, which allocations are live,
+    which [AsyncFd] descriptors are open, and for how many accepted requests of each operation the
+    final completion has not been processed yet ([m_due]: the request is in flight, or its final
+    completion is posted and not processed). Replaying a log fails ([None]) on: an access to or a
+    second munmap of an unmapped region, a munmap with a length other than the mapping's, a system
+    call on the closed ring descriptor, closing it twice or while something is still mapped,
+    freeing an allocation that is not live, a pool's memory freed while it is registered or used
+    after it was freed, unregistering twice, closing a descriptor twice, and
+      - the completion handler using an operation state that is not allocated ([LProcess]);
+      - releasing an operation state while a request of that operation is in flight or its final
+        completion is still to be processed ([LFree (ABox _)] with [m_due] not 0). *)
 Record mon := {
   m_sq : bool; m_sqes : bool; m_cq : bool;   (* mapped *)
   m_fd : bool;                               (* ring descriptor open *)
@@ -432,7 +578,8 @@ Record mon := {
   m_reg : list bool;                         (* per pool: registered *)
   m_pring : list bool;                       (* per pool: ring allocated *)
   m_pbufs : list bool;                       (* per pool: buffers allocated *)
-  m_desc : list bool                         (* per AsyncFd: descriptor open *)
+  m_desc : list bool;                        (* per AsyncFd: descriptor open *)
+  m_due : list nat                           (* per operation: requests accepted by the kernel whose final completion is not processed *)
 }.
 
 Definition mapped (m : mon) (x : mapping) : bool :=
@@ -443,54 +590,60 @@ Definition unmap (m : mon) (x : mapping) : mon :=
      m_sqes := match x with MSqes => false | _ => m_sqes m end;
      m_cq := match x with MCq => false | _ => m_cq m end;
      m_fd := m_fd m; m_box := m_box m; m_reg := m_reg m; m_pring := m_pring m; m_pbufs := m_pbufs m;
-     m_desc := m_desc m |}.
+     m_desc := m_desc m; m_due := m_due m |}.
 
 Definition clr (i : nat) (l : list bool) : list bool := upd i (fun _ => false) l.
+
+Definition set_fdopen (m : mon) (b : bool) : mon :=
+  {| m_sq := m_sq m; m_sqes := m_sqes m; m_cq := m_cq m; m_fd := b; m_box := m_box m;
+     m_reg := m_reg m; m_pring := m_pring m; m_pbufs := m_pbufs m; m_desc := m_desc m; m_due := m_due m |}.
+Definition set_box (m : mon) (l : list bool) : mon :=
+  {| m_sq := m_sq m; m_sqes := m_sqes m; m_cq := m_cq m; m_fd := m_fd m; m_box := l;
+     m_reg := m_reg m; m_pring := m_pring m; m_pbufs := m_pbufs m; m_desc := m_desc m; m_due := m_due m |}.
+Definition set_reg (m : mon) (l : list bool) : mon :=
+  {| m_sq := m_sq m; m_sqes := m_sqes m; m_cq := m_cq m; m_fd := m_fd m; m_box := m_box m;
+     m_reg := l; m_pring := m_pring m; m_pbufs := m_pbufs m; m_desc := m_desc m; m_due := m_due m |}.
+Definition set_pring (m : mon) (l : list bool) : mon :=
+  {| m_sq := m_sq m; m_sqes := m_sqes m; m_cq := m_cq m; m_fd := m_fd m; m_box := m_box m;
+     m_reg := m_reg m; m_pring := l; m_pbufs := m_pbufs m; m_desc := m_desc m; m_due := m_due m |}.
+Definition set_pbufs (m : mon) (l : list bool) : mon :=
+  {| m_sq := m_sq m; m_sqes := m_sqes m; m_cq := m_cq m; m_fd := m_fd m; m_box := m_box m;
+     m_reg := m_reg m; m_pring := m_pring m; m_pbufs := l; m_desc := m_desc m; m_due := m_due m |}.
+Definition set_desc (m : mon) (l : list bool) : mon :=
+  {| m_sq := m_sq m; m_sqes := m_sqes m; m_cq := m_cq m; m_fd := m_fd m; m_box := m_box m;
+     m_reg := m_reg m; m_pring := m_pring m; m_pbufs := m_pbufs m; m_desc := l; m_due := m_due m |}.
+Definition set_due (m : mon) (l : list nat) : mon :=
+  {| m_sq := m_sq m; m_sqes := m_sqes m; m_cq := m_cq m; m_fd := m_fd m; m_box := m_box m;
+     m_reg := m_reg m; m_pring := m_pring m; m_pbufs := m_pbufs m; m_desc := m_desc m; m_due := l |}.
 
 Definition replay1 (d : dims) (m : mon) (e : lev) : option mon :=
   match e with
   | LUse x => if mapped m x then Some m else None
   | LEnter _ _ => if m_fd m then Some m else None
   | LConsumed (SClose h) =>
-      if nth h (m_desc m) false
-      then Some {| m_sq := m_sq m; m_sqes := m_sqes m; m_cq := m_cq m; m_fd := m_fd m; m_box := m_box m;
-                   m_reg := m_reg m; m_pring := m_pring m; m_pbufs := m_pbufs m; m_desc := clr h (m_desc m) |}
-      else None
-  | LConsumed _ => Some m
+      if nth h (m_desc m) false then Some (set_desc m (clr h (m_desc m))) else None
+  | LConsumed (SOp o) => Some (set_due m (upd o S (m_due m)))
+  | LConsumed (SCancel _) => Some m
   | LRegister RSyncCancel => if m_fd m then Some m else None
   | LRegister (RUnregPbuf p) =>
-      if m_fd m && nth p (m_reg m) false
-      then Some {| m_sq := m_sq m; m_sqes := m_sqes m; m_cq := m_cq m; m_fd := m_fd m; m_box := m_box m;
-                   m_reg := clr p (m_reg m); m_pring := m_pring m; m_pbufs := m_pbufs m; m_desc := m_desc m |}
-      else None
+      if m_fd m && nth p (m_reg m) false then Some (set_reg m (clr p (m_reg m))) else None
   | LMunmap x len =>
       if mapped m x && (len =? len_of d x)%N then Some (unmap m x) else None
   | LCloseRing =>
-      if m_fd m && negb (m_sq m || m_sqes m || m_cq m)
-      then Some {| m_sq := m_sq m; m_sqes := m_sqes m; m_cq := m_cq m; m_fd := false; m_box := m_box m;
-                   m_reg := m_reg m; m_pring := m_pring m; m_pbufs := m_pbufs m; m_desc := m_desc m |}
-      else None
+      if m_fd m && negb (m_sq m || m_sqes m || m_cq m) then Some (set_fdopen m false) else None
   | LSysClose h =>
-      if nth h (m_desc m) false
-      then Some {| m_sq := m_sq m; m_sqes := m_sqes m; m_cq := m_cq m; m_fd := m_fd m; m_box := m_box m;
-                   m_reg := m_reg m; m_pring := m_pring m; m_pbufs := m_pbufs m; m_desc := clr h (m_desc m) |}
-      else None
+      if nth h (m_desc m) false then Some (set_desc m (clr h (m_desc m))) else None
   | LUsePool p => if nth p (m_pring m) false && nth p (m_pbufs m) false then Some m else None
-  | LFree (ABox o) =>
+  | LProcess o final =>
       if nth o (m_box m) false
-      then Some {| m_sq := m_sq m; m_sqes := m_sqes m; m_cq := m_cq m; m_fd := m_fd m; m_box := clr o (m_box m);
-                   m_reg := m_reg m; m_pring := m_pring m; m_pbufs := m_pbufs m; m_desc := m_desc m |}
+      then Some (if final then set_due m (upd o pred (m_due m)) else m)
       else None
+  | LFree (ABox o) =>
+      if nth o (m_box m) false && (nth o (m_due m) 0 =? 0) then Some (set_box m (clr o (m_box m))) else None
   | LFree (APoolRing p) =>
-      if nth p (m_pring m) false && negb (nth p (m_reg m) false)
-      then Some {| m_sq := m_sq m; m_sqes := m_sqes m; m_cq := m_cq m; m_fd := m_fd m; m_box := m_box m;
-                   m_reg := m_reg m; m_pring := clr p (m_pring m); m_pbufs := m_pbufs m; m_desc := m_desc m |}
-      else None
+      if nth p (m_pring m) false && negb (nth p (m_reg m) false) then Some (set_pring m (clr p (m_pring m))) else None
   | LFree (APoolBufs p) =>
-      if nth p (m_pbufs m) false && negb (nth p (m_reg m) false)
-      then Some {| m_sq := m_sq m; m_sqes := m_sqes m; m_cq := m_cq m; m_fd := m_fd m; m_box := m_box m;
-                   m_reg := m_reg m; m_pring := m_pring m; m_pbufs := clr p (m_pbufs m); m_desc := m_desc m |}
-      else None
+      if nth p (m_pbufs m) false && negb (nth p (m_reg m) false) then Some (set_pbufs m (clr p (m_pbufs m))) else None
   end.
 
 Fixpoint replay (d : dims) (m : mon) (l : list lev) : option mon :=
